@@ -971,7 +971,6 @@ func vmgrGenSched(w *vmgrWorld, out *vmgrOut, rng *rand.Rand) {
 		}
 		res := make([]Poll, len(s.actors))
 		msgs := make([]string, len(s.actors))
-		injected := false
 		for i, a := range s.actors {
 			res[i] = a.res
 			if a.panicked {
@@ -979,12 +978,9 @@ func vmgrGenSched(w *vmgrWorld, out *vmgrOut, rng *rand.Rand) {
 			}
 		}
 		out.emit("endphase", w.endLine(res, msgs))
-		if w.m.balance == nil {
-			injected = true
-		}
-		if injected {
-			return // ids of leaked pollers are unknown to the harness: the scenario ends here
-		}
+		// after an injected openPoll failure the scenario goes on (closed manager, no balancer: the later phases
+		// show how it behaves and whether SetLoadBalance / SetNumLoops revive it); every poller the failing Run had
+		// opened was in m.polls when its error path closed it, so the harness knows all of them
 	}
 }
 
